@@ -30,8 +30,7 @@ func (o OracleC01) After(x *Exec, op *Op, res *Res) {
 }
 
 func (OracleC01) EndOfBlock(x *Exec) {
-	s := TakeSnap(x.W, x.Ctx)
-	OracleC01{}.check(x, s, "at end of block")
+	OracleC01{}.check(x, x.EndSnap, "at end of block")
 }
 
 func custodyDenoms(ss ...*Snap) []string {
